@@ -3,6 +3,7 @@ package announce
 import (
 	"bytes"
 	"context"
+	"github.com/multiformats/go-multiaddr"
 
 	"github.com/ipni/go-libipni/announce/message"
 	pubsub "github.com/libp2p/go-libp2p-pubsub"
@@ -48,6 +49,12 @@ func VerifC09_PubsubPath() {
 		from = self
 	}
 	m := message.Message{Cid: c09cid(7)}
+	if verif_Bool("firstMessageHasAddressesAndExtraData") {
+		a1, aerr := multiaddr.NewMultiaddr("/ip4/8.8.4.4/tcp/80")
+		verif_Assume(aerr == nil)
+		m.SetAddrs([]multiaddr.Multiaddr{a1})
+		m.ExtraData = []byte{0xee}
+	}
 	kind := verif_Choose("origPeerField", 0, 2)
 	switch kind {
 	case 1:
@@ -81,6 +88,17 @@ func VerifC09_PubsubPath() {
 		verif_Assert(got == nil, "a republished message whose original peer cannot be read is dropped")
 	}
 	third := c09pid(0xcc)
+	// the next message is an ordinary one without addresses, from another sender:
+	// nothing of the previous message sticks to it
+	verif_PubsubDeliver(r.topicSub, []byte(third), c09wire(message.Message{Cid: c09cid(17)}))
+	verif_Quiesce()
+	select {
+	case a := <-r.outChan:
+		verif_Assert(a.PeerID == third && a.Cid == c09cid(17), "the next pubsub message is attributed to its own sender")
+		verif_Assert(len(a.Addrs) == 0, "and carries its own (no) addresses, not those of the message before")
+	default:
+		verif_Assert(false, "an allowed, unseen pubsub announcement is delivered whatever was received before")
+	}
 	// a direct announcement is republished with the original publisher recorded
 	before := len(verif_PubsubPublished(topic))
 	derr := r.Direct(context.Background(), c09cid(8), peer.AddrInfo{ID: third})
